@@ -792,4 +792,194 @@ theorem dangling_index_notin_local (env : Env) (height : Nat) (sets : Sets) (cc 
     x.index ∉ sets.loc.outgoing.map (·.index) :=
   checkRemoteDangling_index_notin env height sets cc pl _ (mem_actionsOf hx)
 
+
+
+/-- chain trigger from StateDefault with a non-empty action map and a working `ForceCloseChan`. -/
+theorem advance_default_chain (env : Env) (a : Arb) (height : Nat) (choice : AState → Bool)
+    (hs : a.state = .default) (hf : a.fcErr = .none)
+    (hne : checkLocal env height .chain a.active false (choice .default) ≠ []) :
+    (advance env a height .chain none choice advanceFuel).2.fails =
+      failBatch (indexSet (actionsOf
+        (checkLocal env height .chain a.active false (choice .default)) .failDust)) ∧
+    (advance env a height .chain none choice advanceFuel).1 =
+      { a with state := .commitmentBroadcasted } := by
+  have hne' : (checkLocal env height .chain a.active false (choice .default)).isEmpty = false := by
+    cases h : checkLocal env height .chain a.active false (choice .default) with
+    | nil => exact absurd h hne
+    | cons _ _ => rfl
+  obtain ⟨st, act, r, f, ins⟩ := a
+  simp only at hs hf hne'; subst hs hf
+  simp [advanceFuel, advance, stateStep, Out.append, hne']
+
+/-- a `FailDust` entry of `checkLocalChainActions` is a dust HTLC of our own commitment or a
+    dust entry of the merged remote map that is not on our commitment. -/
+theorem checkLocal_failDust_cases (env : Env) (height : Nat) (trig : Trigger) (sets : Sets)
+    (cc pl : Bool) (x : Htlc)
+    (hx : x ∈ actionsOf (checkLocal env height trig sets cc pl) .failDust) :
+    x ∈ sets.loc.outgoing ∨
+    (x ∈ mergeRemote sets pl ∧ x.dust = true ∧ x.index ∉ sets.loc.outgoing.map (·.index)) := by
+  have hm := mem_actionsOf hx
+  unfold checkLocal at hm
+  rw [List.mem_append] at hm
+  rcases hm with hm | hm
+  · unfold checkCommit at hm
+    split at hm
+    · cases hm
+    · rw [List.mem_append] at hm
+      rcases hm with hm | hm
+      · simp only [List.mem_map, Prod.mk.injEq] at hm
+        obtain ⟨y, hy, _, rfl⟩ := hm
+        exact Or.inl hy
+      · simp only [List.mem_map, Prod.mk.injEq] at hm
+        obtain ⟨y, _, h1, rfl⟩ := hm
+        have := classifyIn_beq_failDust y
+        rw [h1] at this; cases this
+  · have hni := checkRemoteDangling_index_notin env height sets cc pl _ hm
+    simp only [checkRemoteDangling, List.mem_map, List.mem_filter, Prod.mk.injEq] at hm
+    obtain ⟨y, ⟨⟨hy, _⟩, _⟩, h1, rfl⟩ := hm
+    refine Or.inr ⟨hy, ?_, hni⟩
+    have := classifyDangling_beq_failDust y
+    rw [h1] at this
+    simpa using this.symm
+
+/-- after our broadcast (user request, or a block with a non-empty action map) the peer's current
+    or pending commitment confirms: nothing is failed upstream twice. -/
+theorem broadcast_then_remote_at_most_once (env : Env) (a : Arb) (res : Resolutions)
+    (h0 h1 : Nat) (choice : AState → Bool) (b : Bool) (trig : Trigger)
+    (hs : a.state = .default) (hf : a.fcErr = .none) (hb : res.breach = false)
+    (htrig : trig = .user ∨
+      (trig = .chain ∧ checkLocal env h0 .chain a.active false (choice .default) ≠ []))
+    (hshape : ∀ x ∈ a.active.loc.outgoing,
+      x.index ∈ (confRemote a.active b).outgoing.map (·.index))
+    (hwfo : WFSet (otherRemote a.active b)) (i : Nat) :
+    ((advance env a h0 trig none choice advanceFuel).2.fails ++
+      (handleClose env (advance env a h0 trig none choice advanceFuel).1
+        (.remoteForce ⟨remoteKey b, a.active⟩ res h1) choice).2.fails).flatten.count i ≤ 1 := by
+  have hstep : (advance env a h0 trig none choice advanceFuel).2.fails =
+      failBatch (indexSet (actionsOf
+        (checkLocal env h0 trig a.active false (choice .default)) .failDust)) ∧
+      (advance env a h0 trig none choice advanceFuel).1 = { a with state := .commitmentBroadcasted } := by
+    rcases htrig with rfl | ⟨rfl, hne⟩
+    · have := advance_default_user env a h0 choice hs hf
+      exact ⟨this.1, this.2.2⟩
+    · exact advance_default_chain env a h0 choice hs hf hne
+  rw [hstep.1, hstep.2]
+  simp only [handleClose]
+  rw [advance_broadcast_close env _ h1 .remoteClose ⟨remoteKey b, a.active⟩ res choice (Or.inl rfl)
+    (Or.inr rfl) rfl hb]
+  rw [List.flatten_append, List.count_append, flatten_failBatch, ccOut_fails_flatten,
+    count_indexSet, count_indexSet]
+  simp only [construct_remoteKey, checkRemote_failDangling env h1 .remoteClose a.active b (by decide)]
+  by_cases h2 : i ∈ ((diffList env a.active b).filter (fun h => !h.dust)).map (·.index)
+  · have h1' : i ∉ (actionsOf (checkLocal env h0 trig a.active false (choice .default))
+        .failDust).map (·.index) := by
+      intro hc
+      obtain ⟨x, hx, hxi⟩ := List.mem_map.mp hc
+      obtain ⟨y, hy, hyi⟩ := List.mem_map.mp h2
+      have hy' := List.mem_filter.mp hy
+      have hyD := List.mem_filter.mp hy'.1
+      have hynd : y.dust = false := by simpa using hy'.2
+      have hyconf : y.index ∉ (confRemote a.active b).outgoing.map (·.index) := by
+        intro hcc
+        have := (hasIndex_iff _ _).mpr hcc
+        have h3 := hyD.2
+        simp only [Bool.and_eq_true, Bool.not_eq_true'] at h3
+        rw [h3.1] at this; cases this
+      rcases checkLocal_failDust_cases env h0 trig a.active false _ x hx with hl | ⟨hmr, hxd, _⟩
+      · apply hyconf
+        rw [hyi, ← hxi]
+        exact hshape x hl
+      · have hxo : x ∈ (otherRemote a.active b).outgoing := by
+          rcases mem_mergeRemote hmr with h | h
+          · cases b
+            · exfalso; apply hyconf; rw [hyi, ← hxi]
+              exact List.mem_map.mpr ⟨x, by simpa [confRemote] using h, rfl⟩
+            · simpa [otherRemote] using h
+          · cases b
+            · simpa [otherRemote] using h
+            · exfalso; apply hyconf; rw [hyi, ← hxi]
+              exact List.mem_map.mpr ⟨x, by simpa [confRemote] using h, rfl⟩
+        have := eq_of_index_eq hwfo.outNodup hxo hyD.1 (hxi.trans hyi.symm)
+        subst this
+        rw [hynd] at hxd; cases hxd
+    rw [if_neg h1', if_pos h2]; omega
+  · rw [if_neg h2]
+    split <;> omega
+
+
+
+
+theorem index_mem_insertByIndex (m : List Htlc) (h : Htlc) (i : Nat)
+    (hi : i ∈ m.map (·.index) ∨ i = h.index) : i ∈ (insertByIndex m h).map (·.index) := by
+  unfold insertByIndex
+  rw [List.map_append, List.mem_append]
+  by_cases he : i = h.index
+  · exact Or.inr (by simp [he])
+  · rcases hi with hi | hi
+    · obtain ⟨x, hx, rfl⟩ := List.mem_map.mp hi
+      refine Or.inl (List.mem_map.mpr ⟨x, List.mem_filter.mpr ⟨hx, ?_⟩, rfl⟩)
+      simpa using he
+    · exact absurd hi he
+
+theorem index_mem_foldl_insert (l acc : List Htlc) (i : Nat)
+    (hi : i ∈ acc.map (·.index) ∨ i ∈ l.map (·.index)) :
+    i ∈ (l.foldl insertByIndex acc).map (·.index) := by
+  induction l generalizing acc with
+  | nil => rcases hi with hi | hi
+           · simpa using hi
+           · simp at hi
+  | cons y ys ih =>
+    simp only [List.foldl_cons]
+    apply ih
+    rcases hi with hi | hi
+    · exact Or.inl (index_mem_insertByIndex acc y i (Or.inl hi))
+    · simp only [List.map_cons, List.mem_cons] at hi
+      rcases hi with hi | hi
+      · exact Or.inl (index_mem_insertByIndex acc y i (Or.inr hi))
+      · exact Or.inr hi
+
+theorem index_mem_mergeRemote (sets : Sets) (pl : Bool) (i : Nat)
+    (hi : i ∈ (sets.rem.outgoing ++ sets.pend.outgoing).map (·.index)) :
+    i ∈ (mergeRemote sets pl).map (·.index) := by
+  unfold mergeRemote
+  split
+  · exact index_mem_foldl_insert _ _ i (Or.inr hi)
+  · apply index_mem_foldl_insert _ _ i
+    refine Or.inr ?_
+    simp only [List.map_append, List.mem_append] at hi ⊢
+    exact hi.symm
+
+/-- an offered HTLC that is only on the peer's commitment(s), every copy of which is at its
+    cut-off and whose preimage is unknown, makes the chain-trigger action map non-empty. -/
+theorem checkLocal_ne_nil_of_dangling (env : Env) (sets : Sets) (height : Nat) (pl : Bool) (i : Nat)
+    (hi : i ∈ (sets.rem.outgoing ++ sets.pend.outgoing).map (·.index))
+    (hnl : i ∉ sets.loc.outgoing.map (·.index))
+    (hall : ∀ x ∈ sets.rem.outgoing ++ sets.pend.outgoing, x.index = i →
+      shouldGoOnChain env x env.deltaOut height = true ∧ env.preimageKnown x.hash = false) :
+    checkLocal env height .chain sets false pl ≠ [] := by
+  obtain ⟨x, hx, hxi⟩ := List.mem_map.mp (index_mem_mergeRemote sets pl i hi)
+  have hxs := mem_mergeRemote hx
+  have := hall x (by rw [List.mem_append]; exact hxs) hxi
+  intro hnil
+  unfold checkLocal at hnil
+  have h2 := (List.append_eq_nil_iff.mp hnil).2
+  unfold checkRemoteDangling at h2
+  simp only [List.map_eq_nil_iff, List.filter_eq_nil_iff, List.mem_filter] at h2
+  have hh : hasIndex sets.loc.outgoing x.index = false := by
+    cases hc : hasIndex sets.loc.outgoing x.index
+    · rfl
+    · exact absurd ((hasIndex_iff _ _).mp hc) (by rw [hxi]; exact hnl)
+  have := h2 x ⟨hx, by simp [hh]⟩
+  simp_all
+
+
+theorem sets_not_empty_of_mem (sets : Sets) (k : SetKey) (h : Htlc)
+    (hm : h ∈ (sets.get k).outgoing ∨ h ∈ (sets.get k).incoming) : sets.isEmpty = false := by
+  cases he : sets.isEmpty
+  · rfl
+  · exfalso
+    simp only [Sets.isEmpty, HtlcSet.isEmpty, Bool.and_eq_true, List.isEmpty_iff] at he
+    obtain ⟨⟨⟨h1, h2⟩, ⟨h3, h4⟩⟩, ⟨h5, h6⟩⟩ := he
+    cases k <;> simp [Sets.get, h1, h2, h3, h4, h5, h6] at hm
+
 end LndModel.C12
